@@ -1,6 +1,7 @@
 package main
 
 import (
+	"context"
 	"fmt"
 	"net"
 
@@ -33,6 +34,61 @@ func (purePort) exec(f []string) []string {
 			return []string{"dec err"} // texts are never compared
 		}
 		return []string{fmt.Sprintf("dec ok %s %d", hexs(p), seq)}
+	case "strcheck": // strcheck <hex>
+		return []string{"strcheck " + denyClass(mqtt.VerifStringCheck(string(unhex(f[1]))))}
+	case "topiccheck":
+		return []string{"topiccheck " + denyClass(mqtt.VerifTopicCheck(string(unhex(f[1]))))}
+	case "pubhead": // pubhead <head> <pid> <topic-hex> <msglen>
+		n := atoi(f[4])
+		msg := patternBytes(n)
+		bufs, err := mqtt.VerifPublishPacket(msg, string(unhex(f[3])), uint(atoi(f[2])), byte(atoi(f[1])))
+		if err != nil {
+			return []string{"pubhead " + denyClass(err)}
+		}
+		same := len(bufs) == 2 && len(bufs[1]) == n && (n == 0 || &bufs[1][0] == &msg[0])
+		return []string{fmt.Sprintf("pubhead pkt %s %d %v", hexs(bufs[0]), n, same)}
+	case "connreq": // connreq <clean> <keepalive> <user> <pass|nil> <willtopic> <willmsg|nil> <retain> <alo> <eo> <clientid>
+		var c mqtt.Config
+		c.Dialer = func(context.Context) (net.Conn, error) { return nil, nil }
+		c.CleanSession = f[1] == "1"
+		c.KeepAlive = uint16(atoi(f[2]))
+		c.UserName = string(unhex(f[3]))
+		if f[4] != "nil" {
+			c.Password = unhex(f[4])
+		}
+		c.Will.Topic = string(unhex(f[5]))
+		if f[6] != "nil" {
+			c.Will.Message = unhex(f[6])
+		}
+		c.Will.Retain, c.Will.AtLeastOnce, c.Will.ExactlyOnce = f[7] == "1", f[8] == "1", f[9] == "1"
+		if err := mqtt.VerifConfigValid(&c); err != nil {
+			return []string{"connreq " + denyClass(err)}
+		}
+		return []string{"connreq pkt " + hexs(mqtt.VerifNewCONNREQ(&c, unhex(f[10])))}
 	}
 	return []string{"bad-op " + f[0]}
+}
+
+// denyClass canonicalises a validation result: texts are never compared.
+func denyClass(err error) string {
+	switch {
+	case err == nil:
+		return "ok"
+	case mqtt.IsDeny(err):
+		return "deny"
+	}
+	return "err-other"
+}
+
+var patternBuf []byte
+
+// patternBytes returns n bytes of a fixed pattern (shared, do not modify).
+func patternBytes(n int) []byte {
+	if len(patternBuf) < n {
+		patternBuf = make([]byte, n)
+		for i := range patternBuf {
+			patternBuf[i] = byte(i*7 + 3)
+		}
+	}
+	return patternBuf[:n:n]
 }
